@@ -75,6 +75,16 @@ where
     loop {
       // Poll the stream until exhausted
       let this = self.as_mut().project();
+      // Stop pulling once the downstream no longer wants items
+      if this
+        .observer
+        .as_ref()
+        .expect("future polled before done")
+        .is_finished()
+      {
+        this.observer.take();
+        break Poll::Ready(NormalReturn::new(()));
+      }
       let next = ready!(this.stream.poll_next(cx));
 
       match next {
